@@ -3,7 +3,11 @@ use std::fs::File;
 use std::io::{BufWriter, Write};
 use std::marker;
 use std::path::Path;
+#[cfg(not(feature = "verif-hooks"))]
 use std::sync::atomic::{AtomicBool, AtomicU32, AtomicU64, Ordering};
+
+#[cfg(feature = "verif-hooks")]
+use crate::verif::atomic::{AtomicBool, AtomicU32, AtomicU64, Ordering};
 
 use heed::types::Bytes;
 use heed::{BytesDecode, BytesEncode, RoTxn};
@@ -252,6 +256,9 @@ impl<'t, D: Distance> ImmutableLeafs<'t, D> {
             candidates.remove_smallest(1);
             leafs.insert(item_id, ptr);
         }
+
+        #[cfg(feature = "verif-hooks")]
+        crate::verif::emit(crate::verif::Event::Batch(selected_items.len() as usize));
 
         Ok((
             ImmutableLeafs { leafs, constant_length, _marker: marker::PhantomData },
